@@ -16,7 +16,7 @@ def run(tier, seed):
     from contracts import leaf
 
     specs = leaf.array_specs(tier) + [("contracts.arrays", "make_arr", (w,)) for w in ("length-resolution", "write-size-check", "c-order", "sentinel")]
-    specs += [("contracts.cstructfns", "make_fn", ("make_array",))]
+    specs += [("contracts.cstructfns", "make_fn", ("make_array",)), ("contracts.cstructfns", "make_fn", ("make_array_identity",))]
     rep.add_case_results(run_cases(specs), "T1")
     progs = sets.focused_programs(sorted(sets.ARRAY_KINDS), seed, tier=tier)
     rep.add_case_results(run_cases([("t2.cases", "make_rel", (p.to_json(),)) for p in progs]), "T2")
